@@ -86,7 +86,8 @@ def chain_cases(draw):
     """Very tall trees: a matrix product chain v-M-M-...-M-v of hundreds of
     tensors contracted sequentially (tree height n-1).  The matrices are 0/1
     matrices with at most one 1 per row, so the exact product stays 0/1."""
-    n = draw(st.sampled_from([40, 120, 300, 520, 700]))
+    # (beyond 740 labels the canonical symbols leave the contiguous blocks)
+    n = draw(st.sampled_from([40, 120, 300, 520, 700, 950, 950]))
     return {
         "kind": "chain",
         "n": n,
